@@ -419,8 +419,8 @@ func normalise(mod []*packages.Package, fset *token.FileSet, known map[string]bo
 		// shadowing check and edits per file
 		edits := map[*ast.File][]textEdit{}
 		imports := map[*ast.File]map[string]string{} // path -> alias
-		reused := map[*ast.File][]*types.PkgName{}     // imports of a file that inlined text refers to
-		deleted := map[*ast.File][][2]token.Pos{}      // declarations dropped from a file
+		reused := map[*ast.File][]*types.PkgName{}   // imports of a file that inlined text refers to
+		deleted := map[*ast.File][][2]token.Pos{}    // declarations dropped from a file
 		src := func(f *ast.File) []byte {
 			name := fset.File(f.Pos()).Name()
 			if b, ok := overlay[name]; ok {
@@ -1040,7 +1040,6 @@ func readOnlyParam(info *types.Info, fd *ast.FuncDecl, pv *types.Var) bool {
 	})
 	return ok
 }
-
 
 // threadPlan: the statement after `a, b := helper(...)` is
 // `if <test of one result> { ...; return ... }`.  The exits of the helper
